@@ -314,8 +314,12 @@ func families(w *world) []*family {
 	add(&family{name: "sm2-enveloped-key-sizes", params: names("encrypted-private-key", "symmetric-key", "public-key"),
 		gen: func(c *mon.Case, p string, emit func(string, []byte)) {
 			symKey := pat(c.R, 16)
+			// randomness of the construction comes from the case PRNG (through a Script, which keeps the stream
+			// position independent of the 1-byte probes of randutil.MaybeReadByte): a replay builds the same bytes
+			encRand := mon.NewScript(nil)
+			encRand.Tail = mon.NewRand(c.R.Uint64(), "c13.built.sm2enc")
 			encKey := func(k []byte) []byte {
-				ct, err := sm2.EncryptASN1(w.rnd, &w.sm2A.PublicKey, k)
+				ct, err := sm2.EncryptASN1(encRand, &w.sm2A.PublicKey, k)
 				if err != nil {
 					return nil
 				}
